@@ -144,6 +144,9 @@ def component_spec(rng, enc=False, max_len=600, oversize_ok=False):
                 if desc[j][0] != 0xC2:
                     del desc[j]
                     break
+    elif rng.random() < 0.12 and desc_size(desc) < 200:
+        # a plain component may carry an ENC tag that does not say "session key" (plain, firmware key, ...)
+        desc.insert(rng.randint(0, len(desc)), [0xC2, rng.choice(["00", "01", "01", "03", "", "0002", "ff"])])
     n = blob["len"]
     alen = None
     if rng.random() < 0.4:
